@@ -13,7 +13,7 @@ VARIABLES i, verdict
 RMax == 25
 Sq(x) == [k \in 1..Len(x) |-> x[k]]
 Rep(op) == [vals |-> Sq(op.vals), s |-> op.s]
-Unsupported(d) == d \notin {"ebb_ok", "ebb_late"}
+Unsupported(d) == ~SupportedDev(d, <<3, 0, 2>>)
 Special == {"connect", "disconnect", "record_error"}
 CallOf(c) == [m |-> c.m, a |-> Sq(c.a), s |-> c.s]
 
@@ -43,7 +43,9 @@ Walk(c, steps, ops, b, got, failed, focus) ==
   ELSE IF ops = <<>> \/ ops[1].k # "w" THEN
        (IF F("C05") THEN Res("frame.request_not_transmitted", FALSE, got, b) ELSE Res("skip", FALSE, got, b))
   ELSE LET w == ops[1] IN
-  IF F("C05") /\ w.t # st.t THEN Res(IF c.m \in {"command", "query"} THEN "frame.trimmed_text" ELSE "frame.request_text", FALSE, got, b)
+  \* timed_pause and motors_enable may render their request in more than one documented way (C06 judges those by the statement): not C05's concern
+  IF F("C05") /\ w.t # st.t /\ c.m \in {"timed_pause", "motors_enable"} THEN Res("skip", FALSE, got, b)
+  ELSE IF F("C05") /\ w.t # st.t THEN Res(IF c.m \in {"command", "query"} THEN "frame.trimmed_text" ELSE "frame.request_text", FALSE, got, b)
   ELSE IF w.t # st.t THEN Res("skip", FALSE, got, b)                         \* another property's concern; cannot follow this history further
   ELSE IF F("C05") /\ ~w.clean THEN Res("frame.exactly_one_carriage_return", FALSE, got, b)
   ELSE IF w.raised THEN Walk(c, <<>>, Tail(ops), b, got, TRUE, focus)          \* the write raised: the request failed
@@ -73,6 +75,9 @@ RetOf(c) == IF c.ret[1] = "bool" THEN <<"bool", c.ret[2]>>
             ELSE IF c.ret[1] = "pair" THEN <<"pair", c.ret[2], c.ret[3]>> ELSE <<c.ret[1]>>
 ExpectedRet(cl, got) ==
   LET v == SuccessValue(cl, got) IN IF v[1] = "text" THEN <<"text_of_reply">> ELSE v
+\* helpers whose documentation promises no return value may pass on what their command() returned: nothing, or its success flag
+RetMatches(r, exp) == r = exp \/ (exp = Void /\ r = <<"bool", TRUE>>)
+FailSetT(m) == IF FailSet(m) = {Void} THEN {Void, <<"bool", FALSE>>} ELSE FailSet(m)
 
 \* C16: the board after a successful call
 BoardClause(cl, c, b, got) ==
@@ -82,6 +87,11 @@ BoardClause(cl, c, b, got) ==
          IF RetOf(c) = <<"int", Int32Join(<<b.ram[cl.a[1]], b.ram[cl.a[1] + 1], b.ram[cl.a[1] + 2], b.ram[cl.a[1] + 3]>>)>> THEN "ok" ELSE "board.int32_read_back"
     [] cl.m = "write_nickname" -> IF b.nick = cl.s /\ c.name = cl.s THEN "ok" ELSE "board.nickname_written"
     [] cl.m = "query_nickname" -> IF b.nick = "" \/ c.name = b.nick THEN "ok" ELSE "board.nickname_read_back"
+    \* what the board reports, as the layer hands it to the caller
+    [] cl.m = "motors_query_enabled" ->
+         IF RetOf(c) = <<"pair", IF b.m1 THEN b.res ELSE 0, IF b.m2 THEN b.res ELSE 0>> THEN "ok" ELSE "board.motor_state_reported"
+    [] cl.m = "var_write" -> IF b.ram[cl.a[2]] = cl.a[1] THEN "ok" ELSE "board.variable_written"
+    [] cl.m = "var_read" -> IF RetOf(c) = <<"int", b.ram[cl.a[1]]>> THEN "ok" ELSE "board.variable_read_back"
     [] cl.m = "motors_enable" ->
          LET c1 == Clamp05(cl.a[1]) c2 == Clamp05(cl.a[2]) IN
          IF b.m1 = (c1 # 0) /\ b.m2 = (c2 # 0) /\ (c1 # 0 => b.res = c1) /\ (c1 = 0 /\ c2 # 0 => b.res = c2) THEN "ok" ELSE "board.motor_state_after_enable"
@@ -117,7 +127,7 @@ JudgeCall(c, dev0, b, focus) ==
   ELSE IF c.dead_before THEN
        (IF F("C04") /\ nw > 0 THEN R("latch.dead_object_transmits", b)
         ELSE IF F("C15") /\ Unsupported(dev) /\ nw > 0 THEN R("connect.unsupported_device_receives_only_probes", b)
-        ELSE IF F("C04") /\ RetOf(c) \notin FailSet(cl.m) THEN R("latch.dead_call_returns_failure_value", b)
+        ELSE IF F("C04") /\ RetOf(c) \notin FailSetT(cl.m) THEN R("latch.dead_call_returns_failure_value", b)
         ELSE IF F("C04") /\ c.err_before /\ ~c.err_set THEN R("latch.recorded_error_replaced", b)
         ELSE R("ok", b))
   ELSE IF F("C04") THEN      \* inside a live call: once a request of the call has failed (the error is recorded) nothing more is transmitted
@@ -137,11 +147,11 @@ JudgeCall(c, dev0, b, focus) ==
   ELSE LET w == Walk(cl, Program(cl), ops, b, <<>>, FALSE, focus) IN
        IF w.v # "ok" THEN R(w.v, w.board)
        ELSE IF w.failed THEN
-            (IF F("C05") /\ RetOf(c) \notin FailSet(cl.m) THEN R("fault.failure_return_value", w.board)
+            (IF F("C05") /\ RetOf(c) \notin FailSetT(cl.m) THEN R("fault.failure_return_value", w.board)
              ELSE IF F("C05") /\ cl.m \notin {"reboot", "bootload"} /\ ~c.err_set THEN R("fault.failure_recorded_as_error", w.board)
              ELSE R("ok", w.board))
        ELSE IF F("C05") /\ c.err_set THEN R("success.no_error_recorded", w.board)
-       ELSE IF F("C05") /\ RetOf(c) # ExpectedRet(cl, w.got) THEN R("success.returns_reply_of_own_request", w.board)
+       ELSE IF F("C05") /\ ~RetMatches(RetOf(c), ExpectedRet(cl, w.got)) THEN R("success.returns_reply_of_own_request", w.board)
        ELSE R("ok", w.board)
 
 RECURSIVE JudgeCalls(_, _, _, _, _)
